@@ -106,6 +106,7 @@ static int load_pkts(const char *path) {
     return 0;
 }
 
+static volatile long g_progress; /* pictures output so far */
 static FILE *   g_out;
 static int      g_src_kind = -1, g_src_bits = 8;
 static uint32_t g_src_seed;
@@ -135,6 +136,7 @@ static void report(const char *who, int idx, int pkt, int w, int h, int bits, co
     }
     char hx[33];
     dig_hex(&d, hx);
+    g_progress++;
     fprintf(g_out, "{\"ev\":\"Dec\",\"who\":\"%s\",\"i\":%d,\"pkt\":%d,\"w\":%d,\"h\":%d,\"bits\":%d,\"dig\":\"%s\"", who, idx, pkt, w, h, bits, hx);
     if (g_src_kind >= 0)
         fprintf(g_out, ",\"sse\":[%llu,%llu,%llu]", (unsigned long long)(sse[0] & 0xFFFFFFFFu), (unsigned long long)(sse[1] & 0xFFFFFFFFu),
@@ -143,11 +145,16 @@ static void report(const char *who, int idx, int pkt, int w, int h, int bits, co
 }
 
 static const char *g_phase = "start";
-static unsigned g_alarm_period = 120;
+static unsigned      g_alarm_period = 120;
 static void on_alarm(int s) {
     (void)s;
-    if (vrt_alarm_should_wait(g_alarm_period, 6))
-        return; /* slow or starved, not stuck: keep waiting (bounded) */
+    /* keep waiting (bounded) only while pictures keep coming: the decoder's stages spin on plain flags, so a stuck
+     * multi-threaded decode looks busy */
+    static long last_progress = -1;
+    if (g_progress != last_progress && vrt_alarm_should_wait(g_alarm_period, 6)) {
+        last_progress = g_progress;
+        return;
+    }
     if (g_out) {
         fprintf(g_out, "{\"ev\":\"Timeout\",\"phase\":\"%s\"}\n", g_phase);
         fflush(g_out);
